@@ -182,6 +182,8 @@ enum JobCmd {
     SuspendAtPut { resume_ms: u64 },
     /// Report request at this time
     ReportAt(u64),
+    /// Cancel at the receiving daemon at this time (the scenario keeps the EOF on the link for longer)
+    CancelAtRecv(u64),
 }
 
 #[derive(Default, Clone)]
@@ -343,6 +345,13 @@ async fn run_scenario(out: &mut dyn Write, viol: &mut u64, base: &Utf8PathBuf, s
                 tokio::time::sleep(Duration::from_millis(resume_ms)).await;
                 let _ = tx.send(UserPrimitive::Resume(id)).await;
             })),
+            JobCmd::CancelAtRecv(at) => {
+                let tx = nodes[&j.to].prim_tx.clone();
+                cmd_tasks.push(tokio::task::spawn(async move {
+                    tokio::time::sleep(Duration::from_millis(at)).await;
+                    let _ = tx.send(UserPrimitive::Cancel(id)).await;
+                }))
+            }
             JobCmd::ReportAt(at) => {
                 let reports = reports.clone();
                 cmd_tasks.push(tokio::task::spawn(async move {
@@ -502,6 +511,28 @@ async fn run_scenario(out: &mut dyn Write, viol: &mut u64, base: &Utf8PathBuf, s
                 for e in [j.from, j.to] {
                     // (the receiving entity may never have heard of the transaction)
                     if e == j.from && !end_ms.contains_key(&format!("{}@{}", idr, e)) {
+                        *viol += 1;
+                        oracle(out, "C10", "daemon_cancel_ends", &format!("cancelled transaction {} has not ended at entity {} after {} s || {}", idr, e, sc.horizon_s, ctx()));
+                    }
+                }
+                continue;
+            }
+            JobCmd::CancelAtRecv(_) => {
+                *tally.entry("cmd_cancel_recv").or_insert(0) += 1;
+                // C10: the EOF cannot have arrived before the Cancel, so the receiver cannot have completed: it reports
+                // the cancel condition, so does the (reachable) sender, and nothing is left under the destination name
+                let recv_cancelled = r.recv_finished.first().map_or(false, |x| x.0 == Condition::CancelReceived);
+                let send_cancelled = s.send_finished.iter().any(|x| x.0 == Condition::CancelReceived) && !send_success;
+                if !recv_cancelled || !send_cancelled {
+                    *viol += 1;
+                    oracle(out, "C10", "daemon_cancel_recv", &format!("Cancel({}) was issued at the receiving entity before the EOF could arrive but the receiver finished {:?}, the sender {:?} || {}", idr, r.recv_finished, s.send_finished, ctx()));
+                }
+                if got.is_some() {
+                    *viol += 1;
+                    oracle(out, "C10", "daemon_cancel_no_file", &format!("cancelled transaction {} left {} bytes under the destination name || {}", idr, got.as_ref().map_or(0, |g| g.len()), ctx()));
+                }
+                for e in [j.from, j.to] {
+                    if !end_ms.contains_key(&format!("{}@{}", idr, e)) {
                         *viol += 1;
                         oracle(out, "C10", "daemon_cancel_ends", &format!("cancelled transaction {} has not ended at entity {} after {} s || {}", idr, e, sc.horizon_s, ctx()));
                     }
@@ -763,7 +794,11 @@ pub fn run(opts: &Opts, out: &mut dyn Write) {
             if let Some(c) = jobs.iter().position(|j| !j.ghost) {
                 jobs[c].mode = TransmissionMode::Acknowledged;
                 jobs[c].file = lin(6 * segu, 5, 31 + k as u64);
-                jobs[c].cmd = if rng.chance(1, 2) { JobCmd::CancelAtPut } else { JobCmd::SuspendAtPut { resume_ms: 1500 } };
+                jobs[c].cmd = match rng.below(3) {
+                    0 => JobCmd::CancelAtPut,
+                    1 => JobCmd::SuspendAtPut { resume_ms: 1500 },
+                    _ => JobCmd::CancelAtRecv(100),
+                };
             }
         }
         if k % 2 == 0 {
@@ -814,6 +849,12 @@ pub fn run(opts: &Opts, out: &mut dyn Write) {
                 if rng.chance(1, 2) {
                     kplan.insert((from, kind, occ), Fault::Delay(*rng.pick(&[200u64, 450, 700])));
                 }
+            }
+        }
+        if let Some(j) = jobs.iter().find(|j| matches!(j.cmd, JobCmd::CancelAtRecv(_))) {
+            // every EOF of that sending entity stays on the link for 450 ms: the Cancel at the receiver comes first
+            for occ in 0..(njobs as u64 + 4) {
+                kplan.insert((j.from, "eof", occ), Fault::Delay(450));
             }
         }
         let tag = format!("c11-{}-seed{}", k, opts.seed);
